@@ -63,7 +63,7 @@ def _run(args, cwd, timeout, env_extra=None, heap='4g'):
 
 _LABEL = re.compile(r'^\\\* <(\w+)(?:\((.*)\))? line \d+, col \d+ to line \d+, col \d+ of module (\w+)>')
 _STATE_HDR = re.compile(r'^State (\d+): <(\w+)(?:\((.*)\))? line \d+')
-_COV = re.compile(r'^<(\w+) line (\d+), col \d+ to line \d+, col \d+ of module (\w+)>: (\d+):(\d+)')
+_COV = re.compile(r'^<(\w+) line (\d+), col \d+ to line \d+, col \d+ of module (\w+)(?: \([\d ]+\))?>: (\d+):(\d+)')
 _STATS = re.compile(r'(\d+) states generated, (\d+) distinct states found, (\d+) states left on queue')
 _DEPTH = re.compile(r'The depth of the complete state graph search is (\d+)')
 
@@ -206,5 +206,26 @@ def validate(spec_dir, module, cfg, trace_path, timeout=900, heap='8g', workers=
             stats['generated'] = int(m.group(1))
             stats['distinct'] = int(m.group(2))
         return verdicts, stats
+    finally:
+        shutil.rmtree(work, ignore_errors=True)
+
+
+def apalache(spec_dir, module, init, inv, length, timeout=600):
+    """apalache-mc check --init --inv --length on a typed spec; returns dict(ok, wall_s, cmd, out)."""
+    work = scratch('verif-apa-')
+    try:
+        _stage(spec_dir, work)
+        cmd = ['apalache-mc', 'check', '--init=' + init, '--inv=' + inv, '--length=%d' % length,
+               '--out-dir=' + os.path.join(work, 'out'), module + '.tla']
+        t0 = time.time()
+        try:
+            p = subprocess.run(cmd, cwd=work, stdout=subprocess.PIPE, stderr=subprocess.STDOUT,
+                               timeout=timeout, env=dict(os.environ, JVM_ARGS='-Xmx4g'))
+            out = p.stdout.decode('utf-8', 'replace')
+            rc = p.returncode
+        except (subprocess.TimeoutExpired, OSError) as e:
+            out, rc = str(e), -9
+        return dict(ok=(rc == 0 and 'EXITCODE: OK' in out), rc=rc, wall_s=round(time.time() - t0, 1),
+                    cmd=' '.join(cmd[:6] + [module + '.tla']), out=out[-2000:])
     finally:
         shutil.rmtree(work, ignore_errors=True)
